@@ -154,6 +154,12 @@ def opPair (osz : Nat → Option Nat) (a b : RawSnap) : String :=
     | .ok bs => short (toHex bs)
     | .capacity => "capacity"
     | .panic => "panic"
+  let srt := match b.writeInts with
+    | some xs =>
+      match RawSnap.readFromInts xs, RawSnap.readBytes (packInts xs) with
+      | .ok (s1, []), .ok (s2, []) => if s1 = b ∧ s2 = b then "1" else "0"
+      | _, _ => "0"
+    | none => "0"
   let part2 :=
     if refDomain osz a b then
       let ua := unsignedOrder a.items
@@ -167,7 +173,7 @@ def opPair (osz : Nat → Option Nat) (a b : RawSnap) : String :=
         | _ => ("0", "-")
       s!"ref:{short (fmtInts rd)} rs:{short (fmtInts (refSnapInts ub))} rr:{fmtReadDelta rr} rm:{rm} rap:{rap}"
     else "ref:na"
-  s!"{part1} si:{si} sb:{sb} {part2}"
+  s!"{part1} si:{si} sb:{sb} srt:{srt} {part2}"
 
 /-! ### follow-up operations on an accepted snapshot (C11) -/
 
